@@ -93,7 +93,14 @@ def gen_split_grammar(rng, lexer):
             alt += ' -> al0'
         if alt not in alts:
             alts.append(alt)
-    lines.append('start: ' + '\n  | '.join(alts))
+    if rng.random() < 0.35:
+        # a middle layer: the sequences above become a rule m (half of the time !m, whose AmbiguousExpander lifts every
+        # ambiguous child), used twice by start: nested _ambig inside _ambig children, _iambig under lifted rules
+        mname = rng.choice(['m', '!m', '?m'])
+        lines.append('start: ' + rng.choice(['m m', 'm', 'm m | m A', 'm [A] m', '_i m', 'm m m']))
+        lines.append(mname + ': ' + '\n  | '.join(a.split(' -> ')[0] for a in alts))
+    else:
+        lines.append('start: ' + '\n  | '.join(alts))
     for n, b in zip(names, bare):
         k = rng.randint(2, 3)
         al = rng.sample(atoms, k)
